@@ -24,11 +24,24 @@ def gen_lines(thorough):
             for post in ('clone', 'move'):
                 for t in range(cc, cc + na):       # the failing construction is one of the copy / move constructions of the second object
                     j.append('j %s %d 2 %d 1 %d %s' % (form, 64 + na * 8, na, t, post))
+    # a joint_array failing inside the object's constructor gives its joint memory back (allocator usable): form x length x failing index
+    for form in ('size', 'value', 'range', 'ilist'):
+        for n in ([3] if form == 'ilist' else range(1, min(maxn, 16) + 1)):
+            cc = 2 * n if form == 'ilist' else n
+            for t in range(0, cc):
+                j.append('r %s %d 0 %d 0 %d none' % (form, 64 + n * 8, n, t))
     return u, j
 
 
 def joint_oracle(line):
     lhs, rest = line.split(' =', 1)
+    if lhs.startswith('r '):
+        kv = dict(x.split('=', 1) for x in rest.replace('|', ' ').split() if '=' in x)
+        if kv.get('retry') == 'boom' and kv.get('before') != kv.get('after'):
+            return 'a joint_array whose element %s threw kept %d bytes of joint memory (capacity_left %s before the attempt, %s after it)' % (lhs.split()[6], int(kv['before']) - int(kv['after']), kv['before'], kv['after'])
+        if kv.get('retry') == 'boom' and kv.get('second') != 'ok':
+            return 'after a failed joint_array construction the same request no longer fits (%s)' % kv.get('second')
+        lhs = 'j' + lhs[1:]; t0 = lhs.split(); t0[4] = '0'; t0[6] = '-1'; lhs = ' '.join(t0)
     t = lhs.split(); thr = int(t[6]); na = int(t[4]); post = t[7]
     cc = 2 * na if t[1] == 'ilist' else na
     toks = rest.replace('|', ' ').split()
@@ -86,11 +99,11 @@ def run(ctx):
         outj = subprocess.run([exj], input='\n'.join(j) + '\n', stdout=subprocess.PIPE, stderr=subprocess.PIPE, text=True)
         if outj.returncode != 0:
             ctx.tie_broken.append('joint harness exit %d in %s' % (outj.returncode, c))
-            done = len([l for l in outj.stdout.split('\n') if l.startswith('j ')])
+            done = len([l for l in outj.stdout.split('\n') if l.startswith(('j ', 'r '))])
             if len(ctx.violations) < 3 and done < len(j):
                 ctx.violation('crash:%s/%s' % (j[done], c), 'C20 fails on the implementation: crash (exit %d) in case "%s"' % (outj.returncode, j[done]), dict(harness='h_joint.cpp', config=c, input=j[done]))
         for ln in outj.stdout.split('\n'):
-            if ln.startswith('j ') and ' =' in ln:
+            if ln.startswith(('j ', 'r ')) and ' =' in ln:
                 nj += 1
                 why = joint_oracle(ln)
                 if why and len(ctx.violations) < 3:
